@@ -130,6 +130,34 @@ def main():
         except Exception as e:   # noqa: BLE001
             rec["error"] = f"{type(e).__name__}: {e}"
         out[f"lc{j}"] = rec
+    ncase = [int(x) for x in sys.argv[7].split(",")] if len(sys.argv) > 7 and sys.argv[7] else []
+    if ncase:
+        from harness.gen import namecase
+    for j in ncase:
+        rec = {}
+        try:
+            expr = namecase.generate(j)
+            rec["key"] = PytatoKeyBuilder()(expr)
+            try:
+                prog = pt.generate_loopy(expr)
+                rec["dump"] = json.dumps(cexec.canonical_dump(prog.program), sort_keys=True, default=str)
+                rec["arg_order"] = [a.name for a in prog.program.default_entrypoint.args]
+                rec["bound_names"] = sorted(prog.bound_arguments)
+                try:
+                    rec["cl"] = lp.generate_code_v2(prog.program).device_code()
+                except Exception as e:   # noqa: BLE001
+                    rec["cl_error"] = type(e).__name__
+            except Exception as e:   # noqa: BLE001
+                rec["loopy_error"] = type(e).__name__
+            try:
+                bp = pytarget.generate(expr)
+                rec["py"] = bp.program
+                rec["py_expected"] = sorted(bp.expected_arguments)
+            except Exception as e:   # noqa: BLE001
+                rec["py_error"] = type(e).__name__
+        except Exception as e:   # noqa: BLE001
+            rec["error"] = f"{type(e).__name__}: {e}"
+        out[f"nc{j}"] = rec
     with open(outpath, "w") as f:
         json.dump(out, f)
 
